@@ -158,6 +158,8 @@ pub open spec fn all_programmed(devs: Seq<SubDevice>, upto: int, t: u64) -> bool
     ensures
         __it0.next_from@ == subdevices@.len(),
     decreases subdevices@.len() - __it0.next_from@
+@after_loop 0
+    proof { assert(all_programmed(subdevices@, subdevices@.len() as int, now_nanos)); }
 @*/
 
 } // verus!
